@@ -87,7 +87,7 @@ let run op a =
                      else "OK" ^ nums (encode t v)
                  | Err -> "ERR"
                  | Panic -> "PANIC")
-       | "decm" ->
+       | "decm" | "decx" ->
            let r = decode false t sq in
            Printf.sprintf "%s C=%s K=%s W=%s" (verdict r) (s (cost t sq)) (s (cost_coeff t))
              (if no_width0_list t then "0" else "1")
